@@ -251,16 +251,22 @@ V1_MAP = [
 
 def v1_translation(prog: Program, rep: Report) -> None:
     rule = "R18.6"
+    from ..program import expand_locals
+
     v1 = cfg(prog, "configure_v1")
     got = {}
+
+    def xv(e):  # value with single-assignment temporaries substituted
+        return unparse(expand_locals(e, v1.node))
+
     for n in walk_no_nested(v1.node):
         if isinstance(n, ast.Assign):
             for t in n.targets:
                 if isinstance(t, ast.Subscript) and isinstance(t.slice, ast.Constant) and isinstance(t.value, ast.Subscript) and unparse(t.value.value) == "conf2" and isinstance(t.value.slice, ast.Constant):
-                    got.setdefault((t.value.slice.value, t.slice.value), []).append(unparse(n.value))
+                    got.setdefault((t.value.slice.value, t.slice.value), []).append(xv(n.value))
                 if isinstance(t, ast.Subscript) and unparse(t.value) == "conf2" and isinstance(t.slice, ast.Constant) and isinstance(n.value, ast.Call) and unparse(n.value.func) == "dict":
                     for kw in n.value.keywords:
-                        got.setdefault((t.slice.value, kw.arg), []).append(unparse(kw.value))
+                        got.setdefault((t.slice.value, kw.arg), []).append(xv(kw.value))
     for sec, key, src in V1_MAP:
         vals = got.get((sec, key), [])
         rep.check(rule, v1.qual, f"{sec}.{key} <- {src}", src in vals, what_bad=f"translated from {vals}: the v1 file would describe a different simulation than its v2 spelling", what_ok="same meaning", loc=v1.loc())
